@@ -257,6 +257,10 @@ def rule_dimensions(ctx):
 
 def run(ctx):
     from . import c15
+    c15.rule_tree_geometry(ctx)     # R15.3/R15.4: particles are filed in the root box that contains them (or they exert no force)
+    from . import c14 as _c14
+    _c14.rule_active_count(ctx)     # R14.5: the active counts (global and of an encounter) are decremented for exactly the active particles
+    from . import c15
     c15.rule_axis_conditions(ctx)     # R15.9: root-box lookups treat x, y and z alike (particles in the wrong root box exert no force)
     from . import c15
     c15.rule_moments_every_time(ctx)     # R15.12: tree forces are computed from current sources
